@@ -368,7 +368,9 @@ class Loader:
         """Load allocations and assignments map."""
         data = self.backend.get_default(z.ALLOCATIONS, default={})
         if not data:
-            return
+            # No allocations (any more): no assignment of the previous load
+            # survives either.
+            data = []
 
         self.assignments = collections.defaultdict(list)
         for obj in data:
